@@ -16,7 +16,7 @@ def outcome(o):
     return C("Ok") if o == "Ok" else C("Raise", C(o))
 
 
-def op_term(op, ob, before):
+def op_term(op, ob, before, target="plain"):
     """`before`: contents before the step (needed when the receiver itself is the operand)."""
     k = op[0]
 
@@ -38,7 +38,11 @@ def op_term(op, ob, before):
     if k == "SymDiffUpdate":
         return C(k, arglist(op[1]))
     if k == "Copy":
-        return C("Copy", C({"copy": "CopyCopy", "deep": "CopyDeep", "pickle": "CopyPickle"}[op[1]]))
+        kind = {"copy": "CopyCopy", "deep": "CopyDeep", "pickle": "CopyPickle"}[op[1]]
+        if op[1] == "pickle" and target not in ("plain", "obj/VAll"):
+            kind = "CopyPickleDetached"        # a Set-trait value pickled on its own: __setstate__ drops the trait
+                                               # (unobservable for Set(Any): nothing is ever rejected)
+        return C("Copy", C(kind))
     raise ValueError(op)
 
 
@@ -46,7 +50,7 @@ def to_term(case, obs):
     h = []
     before = list(case["init"])
     for op, ob in zip(case["ops"], obs):
-        term = op_term(op, ob, before)
+        term = op_term(op, ob, before, case["target"] + ("/VAll" if case["target"] != "plain" and case["vk"] == "VAll" else ""))
         before = list(ob["after"])
         h.append((term,
                   C("mkObs", outcome(ob["out"]), list(ob["after"]), [(e[0], e[1]) for e in ob["events"]],
@@ -108,12 +112,14 @@ def gen_case(rnd, ctx, maxlen):
         elif k == "SymDiffUpdate":
             op = [k, "self" if rnd.random() < 0.1 else items(), rnd.choice(["list", "tuple", "iter", "gen"])]
         else:
-            # a TraitSetObject taken alone is copied by deepcopy only: its __setstate__ (copy.copy, pickle)
-            # deliberately disconnects it from its trait (trait = None), deepcopy keeps the trait
-            kind = rnd.choice(["copy", "deep", "pickle"]) if target == "plain" else "deep"
+            # a TraitSetObject taken alone: copy.copy and deepcopy keep validating; a pickle round trip does not
+            # (its __setstate__ drops the trait: listed known finding), so it ends the history
+            kind = rnd.choice(["copy", "deep", "pickle"]) if target == "plain" else rnd.choice(["copy", "deep", "deep", "pickle"])
             op = ["Copy", kind] + ([rnd.randint(0, 5)] if kind == "pickle" else [])
         ops.append(op)
         ctx.count("op:" + op[0])
+        if op[0] == "Copy" and op[1] in ("pickle", "copy") and target != "plain":
+            break      # such a copy has trait = None: a further copy of it is outside the statement
         # hint update (ignores validation; good enough to steer overlaps)
         if k == "Add":
             a = op[1]          # float atoms (300+i) never enter the hint pool: raw-containment ops must not see them
@@ -136,6 +142,8 @@ def corpus():
             cs.append(dict(vk=vk, target="plain", init=[1, 2],
                            ops=[["Copy"] + kind, ["Add", 103], ["Add", 200], ["Add", 4], ["Ixor", "set", [1, 104, 5]]]))
     for vk in ("VAll", "VInt", "VCInt"):
+        cs.append(dict(vk=vk, target="obj", init=[1, 2], ops=[["Add", 3], ["Copy", "pickle", 2]]))
+        cs.append(dict(vk=vk, target="obj", init=[1, 2], ops=[["Add", 3], ["Copy", "copy"]]))
         cs.append(dict(vk=vk, target="obj", init=[1, 2],
                        ops=[["Copy", "deep"], ["Add", 103], ["Add", 200], ["Add", 4], ["Ixor", "set", [1, 104, 5]]]))
     for vk in ("VAll", "VInt", "VCInt"):
